@@ -61,9 +61,23 @@ static void ev_begin(const char* kind) {
 }
 
 /* ------------------------------------------------------------ environment */
-#define MAXB 4096
-static struct { void* p; size_t n; int live; } blocks[MAXB];
+/* the table of blocks handed out since the last reset; it grows (a walk of the thorough tier can hold
+   more live seeds than any fixed size) - a full table must never look like an allocation failure */
+struct blk { void* p; size_t n; int live; };
+static struct blk* blocks;
+static int blocks_cap;
 static int nblocks;
+void* __real_malloc(size_t n);
+void __real_free(void* p);
+static void blocks_room(void) {
+    if (nblocks < blocks_cap) return;
+    int cap = blocks_cap ? 2 * blocks_cap : 4096;
+    struct blk* nb = __real_malloc((size_t)cap * sizeof *nb);
+    if (!nb) { fprintf(stderr, "driver: out of memory for the block table\n"); exit(3); }
+    if (blocks) { memcpy(nb, blocks, (size_t)nblocks * sizeof *nb); __real_free(blocks); }
+    blocks = nb;
+    blocks_cap = cap;
+}
 
 static uint8_t cur_rand[64];
 static size_t cur_rand_len;
@@ -84,7 +98,8 @@ static int find_block(const void* p) {
 static void* do_alloc(size_t n, const char* who) {
     in_cb++;
     void* p = NULL;
-    if (cur_alloc_ok && nblocks < MAXB) {
+    if (cur_alloc_ok) {
+        blocks_room();
         p = __real_malloc(n);
         memset(p, 0xCD, n);   /* fresh memory is never zero */
         blocks[nblocks].p = p;
